@@ -11,6 +11,8 @@ pub mod c02;
 pub mod c13;
 #[cfg(feature = "full")]
 pub mod c14;
+#[cfg(feature = "full")]
+pub mod c16;
 pub mod c04;
 pub mod c05;
 pub mod c06;
@@ -52,6 +54,7 @@ pub fn registry() -> Vec<Prop> {
         v.push(Prop { id: "C02", run: c02::run, replay: c02::replay, rule: c02::RULE, full: true });
         v.push(Prop { id: "C13", run: c13::run, replay: c13::replay, rule: c13::RULE, full: true });
         v.push(Prop { id: "C14", run: c14::run, replay: c14::replay, rule: c14::RULE, full: true });
+        v.push(Prop { id: "C16", run: c16::run, replay: c16::replay, rule: c16::RULE, full: true });
         v.push(Prop { id: "C03", run: c03::run, replay: c03::replay, rule: c03::RULE, full: true });
     }
     v.sort_by_key(|p| p.id);
